@@ -161,7 +161,7 @@ let process_t (c : tcase) =
      a bitmap line, is not one (the generator writes some to pin the model down): a difference there is reported in a
      class of its own that C16 does not observe (n_outside counts them) *)
   let outside = outside_kernel_format text in
-  let cls name = if outside then (incr n_outside; name ^ "_OUTSIDE_KERNEL_FORMAT") else name in
+  let cls name = if outside then (incr n_outside; name ^ "_OUTSIDE_DOMAIN") else name in
   if not (eq_k rk mk) then begin
     incr n_diffs;
     Printf.printf "DIFF class=%s id=%s family=%s text=%s impl=%s model=%s\n" (cls "KBD") c.id c.family c.text_hex (enc_k rk) (enc_k mk)
@@ -360,7 +360,8 @@ let run_ns (dir : string) (nsout : string) =
       let diff what impl model =
         incr n_diffs;
         Printf.printf "DIFF class=%s basis=%s scenario=%s what=%s impl=%s model=%s\n"
-          (if outside_kernel_format text then (incr n_outside; "SELECT_OUTSIDE_KERNEL_FORMAT") else "SELECT") !cur_basis spec what impl model in
+          (if outside_kernel_format text || List.exists (fun (_, r) -> r = IoErr) !sys
+           then (incr n_outside; "SELECT_OUTSIDE_DOMAIN") else "SELECT") !cur_basis spec what impl model in
       let hit clause engine observed expected =
         incr n_hits;
         Printf.printf "HIT clause=%s basis=%s engine=%s scenario=%s observed=%s expected=%s\n" clause !cur_basis engine spec observed expected in
@@ -497,13 +498,18 @@ let run_ns (dir : string) (nsout : string) =
              else begin
                incr n_log_used; incr n_cmp;
                cur_basis := "log";
-               if rest t off <> model_str && (is_dev || norm_groups 2 2 (rest t off) <> norm_groups 2 2 model_str) then diff (engine ^ ":" ^ mode) (rest t off) model_str;
+               (* --dev-file: WHICH nodes are selected (a node named twice may be selected once or twice) *)
+               let dev_sets_differ () =
+                 let mt = Array.of_list (String.split_on_char ' ' model_str) in
+                 (try List.sort_uniq compare (List.map hex_of_bytes (sel_of_sd mt 0)) <> List.sort_uniq compare (List.map hex_of_bytes sel) with _ -> true) in
+               if rest t off <> model_str && (if is_dev then dev_sets_differ () else norm_groups 2 2 (rest t off) <> norm_groups 2 2 model_str) then diff (engine ^ ":" ^ mode) (rest t off) model_str;
                let csel = if is_dev then List.filter_map canon sel else sel in
                if not (no_virtual_listed !truth csel) then hit "C16.virtual" engine (enc_paths sel) "no node of a /devices/virtual/input/ device";
                (match guard () with
                 | Some exp -> incr n_guarded;
                   let srt l = List.sort compare (List.map hex_of_bytes l) in
-                  if not (beq_list beq_bytes sel exp) && (is_dev || srt sel <> srt exp) then hit clause engine (enc_paths sel) (enc_paths exp)
+                  let srtu l = List.sort_uniq compare (List.map hex_of_bytes l) in
+                  if not (beq_list beq_bytes sel exp) && (if is_dev then srtu sel <> srtu exp else srt sel <> srt exp) then hit clause engine (enc_paths sel) (enc_paths exp)
                 | None -> ())
              end
            end) in
